@@ -199,6 +199,58 @@ func runC16(c *Ctx) {
 		})
 		r.Check("C16.2", "newSpec-normalise", okStore && okClean, c.U.Pos(ns.Pos()), "newSpec stores the cleaned path and appends the default extension exactly when it has neither .json nor .yaml")
 	}
+	// ---- C16.3 the configured list is the given list: WithSpecDirs keeps every directory, in order
+	if ws := c.fn("C16.3", "cdi", "WithSpecDirs"); ws != nil && len(ws.AnonFuncs) == 1 {
+		opt := ws.AnonFuncs[0]
+		var loop *ir.Loop
+		for _, l := range ir.Loops(opt) {
+			if strings.HasSuffix(c.exprDesc(l.Over), "dirs") {
+				loop = l
+			}
+		}
+		ok := loop != nil && loop.Complete
+		detail := "no complete loop over the given directories"
+		if ok {
+			// the instruction that keeps the element: specDirs[i] = Clean(dir) or append(specDirs, Clean(dir))
+			var keeps []ssa.Instruction
+			isCleanElem := func(v ssa.Value) bool {
+				d := c.exprDesc(v)
+				return strings.HasPrefix(d, "path/filepath.Clean(elem(") && strings.HasSuffix(d, "dirs))")
+			}
+			ir.Instrs(opt, func(in ssa.Instruction) {
+				if !loop.BodyBlocks()[in.Block()] {
+					return
+				}
+				switch x := in.(type) {
+				case *ssa.Store:
+					if ia, isIA := x.Addr.(*ssa.IndexAddr); isIA && loop.IsIndex(ia.Index) && isCleanElem(x.Val) {
+						keeps = append(keeps, in)
+					}
+				case *ssa.Call:
+					if ir.BuiltinName(x) == "append" {
+						for _, ev := range c.U.ContainerElems(x.Call.Args[1]) {
+							if isCleanElem(ev) {
+								keeps = append(keeps, in)
+							}
+						}
+					}
+				}
+			})
+			body := loop.Body
+			skip := len(keeps) == 0 || ir.CanReach(opt, ir.PathQuery{FromEdge: &body, ToAny: func(in ssa.Instruction) bool { return in.Block() == loop.Header },
+				Stop: func(in ssa.Instruction) bool {
+					for _, k := range keeps {
+						if k == in {
+							return true
+						}
+					}
+					return false
+				}})
+			ok = !skip
+			detail = fmt.Sprintf("%d keeping instruction(s), an iteration can finish without one: %v", len(keeps), skip)
+		}
+		r.Check("C16.3", "specdirs-kept-in-order", ok, c.U.Pos(opt.Pos()), "WithSpecDirs keeps every given directory (cleaned), in the given order - the last one given is the last one configured, also when it was given before ("+detail+")")
+	}
 	// ---- C16.3 last-dir
 	if hp := c.fn("C16.3", "cdi", "(*Cache).highestPrioritySpecDir"); hp != nil {
 		okLast, okEmpty := false, false
